@@ -220,6 +220,31 @@ def main(argv):
                 continue
             cmp[name + ":" + expr] = [guarded(lambda r=r: bool(sel.match(r))) for r in records[:m]
                                       if r.ts is not None and r.ts2 is not None]
+    # strftime-style formatting and template-placed files: which FILES are written must not depend on the display setting
+    cmp["fmt_hour"] = [guarded(lambda v=v: format(v, "%Y-%m-%dT%H")) for v in values[:24] if v is not None]
+    cmp["fmt_fstring"] = [guarded(lambda v=v: f"{v:%H}|{v:%d}") for v in values[:24] if v is not None]
+    cmp["fmt_method"] = [guarded(lambda v=v: "{:%Y%m%d}".format(v)) for v in values[:24] if v is not None]
+    import datetime as _dtm
+
+    arch = os.path.join(workdir, "arch")
+    try:
+        off = _dtm.timezone(_dtm.timedelta(hours=5, minutes=30))
+        base_t = _dtm.datetime(2023, 10, 28, 22, 40, tzinfo=off)
+        aw = RecordWriter("archive://" + arch)
+        for k in range(16):
+            # ascending instants 25 minutes apart around hour and day boundaries (one fixed offset: the path never goes back)
+            aw.write(T(ts=base_t, i=k, s="a%d" % k, _generated=base_t + _dtm.timedelta(minutes=25 * k)))
+        aw.close()
+        files = []
+        for root, _, names in os.walk(arch):
+            for nm in names:
+                full = os.path.join(root, nm)
+                rd = RecordReader(full)
+                files.append([os.path.relpath(full, arch), [int(r.i) for r in rd]])
+                rd.close()
+        cmp["archive_files"] = sorted(files)
+    except Exception as e:  # noqa: BLE001
+        cmp["archive_files"] = "raise:" + type(e).__name__
     out["cmp"] = cmp
 
     out["str"] = [guarded(lambda v=v: str(v)) for v in values[:12]]
